@@ -2125,7 +2125,7 @@ def gen_case(rng, tier):
 
 
 def generate(rng, tier):
-    n = 500 if tier == "quick" else 4000
+    n = 450 if tier == "quick" else 4000
     for c in witness_cases():
         yield c
     for _ in range(n):
